@@ -345,3 +345,9 @@ func rootURIDefault(r string) string {
 	}
 	return r
 }
+
+
+// Dangling: does the pool hold a reference to an id that is not a node (pool index N)?
+func (g *Graph) Dangling() bool {
+	return len(g.Pool) > g.N && g.Pool[g.N].IsRef && g.Pool[g.N].Target < 0
+}
